@@ -364,6 +364,10 @@ def _const_idents(fn, operand, proms, depth=0):
                 return          # the value is known: the constant's name adds nothing
             except (TypeError, ValueError):
                 pass
+        if "elems" in c:
+            for e_ in c["elems"]:
+                res.add(int(e_))
+            return
         if "unevaluated" in c:
             res.add(c["unevaluated"].split("::")[-1])
         if "promoted" in c and c["promoted"] < len(proms):
@@ -400,7 +404,18 @@ def _const_idents(fn, operand, proms, depth=0):
                 if "c" in rv["op"]:
                     from_const(rv["op"]["c"])
                 else:
-                    work.append(op_local(rv["op"]))
+                    pl_ = op_place(rv["op"])
+                    src_ = None
+                    if pl_ is not None and any(isinstance(e_, dict) and "f" in e_ for e_ in pl_.get("p", [])):
+                        import q as _q
+                        src_ = _q.agg_field_source(fn, pl_)     # a captured variable / a struct or tuple field
+                    if src_ is not None:
+                        if "c" in src_:
+                            from_const(src_["c"])
+                        else:
+                            work.append(op_local(src_))
+                    else:
+                        work.append(op_local(rv["op"]))
             elif rv["k"] == "ref":
                 work.append(rv["pl"]["l"])
             elif rv["k"] == "agg" and rv.get("ak") == "adt":
